@@ -48,6 +48,9 @@ var mutates = map[string][]string{
 	"Container.addHandler":                                   {"serveMux"},
 	"WebService.RemoveRoute":                                 {"w"},
 	"Route.postBuild":                                        {"r"},
+	"WebService.compilePathExpression":                       {"w"},
+	"WebService.Path":                                        {"w"},
+	"Container.Add":                                          {"c", "service"},
 	"RouteBuilder.copyDefaults":                              {"b"},
 }
 var isGenStruct = map[string]bool{}
@@ -889,17 +892,36 @@ func (t *tr) effectStmt(ind int, c *ast.CallExpr) bool {
 			fail("method %s of *FilterChain", sel.Sel.Name)
 		}
 	}
-	// a call of a target that changes some of its pointer parameters
+	// a call of a target that changes some of its pointer parameters (its results, if any, are dropped)
+	_, ok = t.mutCall(ind, c)
+	return ok
+}
+
+// mutCall: a call of a target that changes some of its pointer parameters.  Emits the call, writes the
+// changed values back into the arguments (a variable, or a field of a struct parameter such as
+// `c.ServeMux`) and returns the names that hold the callee's own results.
+func (t *tr) mutCall(ind int, c *ast.CallExpr) ([]string, bool) {
+	sel, ok := c.Fun.(*ast.SelectorExpr)
+	if !ok {
+		return nil, false
+	}
 	st, _ := structName(t.typeOf(sel.X))
 	key := st + "." + sel.Sel.Name
 	muts, ok := mutates[key]
 	if !ok || !isTarget[key] {
-		return false
+		return nil, false
 	}
 	fd := funcs[key]
 	recv, params := paramNames(fd)
-	if fd.Type.Results != nil && len(fd.Type.Results.List) > 0 {
-		fail("call of %s, which has results and changes its parameters, as a statement", key)
+	nres := 0
+	if fd.Type.Results != nil {
+		for _, r := range fd.Type.Results.List {
+			if len(r.Names) == 0 {
+				nres++
+			} else {
+				nres += len(r.Names)
+			}
+		}
 	}
 	args, _ := t.args(c.Args)
 	var all []string
@@ -916,8 +938,11 @@ func (t *tr) effectStmt(ind int, c *ast.CallExpr) bool {
 		all = append(all, a)
 	}
 	all = append(all, args...)
-	var outs []string
-	var unwrap []bool
+	type wb struct {
+		arg    ast.Expr
+		unwrap bool
+	}
+	var outs []wb
 	for _, m := range muts {
 		var arg ast.Expr
 		if m == recv {
@@ -929,12 +954,6 @@ func (t *tr) effectStmt(ind int, c *ast.CallExpr) bool {
 				}
 			}
 		}
-		id, ok := arg.(*ast.Ident)
-		if !ok {
-			fail("the argument for the changed parameter %s of %s is not a variable", m, key)
-		}
-		t.changed(id.Name)
-		outs = append(outs, id.Name)
 		// the callee hands back an Option (pointer receiver) where the caller holds a value
 		uw := false
 		if m == recv {
@@ -944,23 +963,47 @@ func (t *tr) effectStmt(ind int, c *ast.CallExpr) bool {
 				}
 			}
 		}
-		unwrap = append(unwrap, uw)
+		outs = append(outs, wb{arg, uw})
 	}
 	var tmps []string
-	for range outs {
+	for i := 0; i < nres+len(outs); i++ {
 		tmps = append(tmps, t.fresh())
 	}
 	t.line(ind, "let %s ← %s X %s", tuple(tmps), leanName(key), strings.Join(all, " "))
 	for i, o := range outs {
-		name := mangle(o)
-		if t.sc.has(o) {
-			name = t.lname(o)
+		val := tmps[nres+i]
+		if o.unwrap {
+			val = "(← deref " + val + ")"
 		}
-		if unwrap[i] {
-			t.line(ind, "%s := (← deref %s)", name, tmps[i])
-		} else {
-			t.line(ind, "%s := %s", name, tmps[i])
+		switch a := o.arg.(type) {
+		case *ast.Ident:
+			t.changed(a.Name)
+			name := mangle(a.Name)
+			if t.sc.has(a.Name) {
+				name = t.lname(a.Name)
+			}
+			t.line(ind, "%s := %s", name, val)
+		case *ast.SelectorExpr:
+			// a field of a struct parameter: c.F
+			root, isId := a.X.(*ast.Ident)
+			pt, isP := ast.Expr(nil), false
+			if isId {
+				pt, isP = t.paramStruct[root.Name]
+			}
+			rst, rptr := structName(pt)
+			if !isId || !isP || rst == "" || !isGenStruct[rst] {
+				fail("the argument %s for a changed parameter of %s is neither a variable nor a field of a struct parameter", src(a), key)
+			}
+			t.changed(root.Name)
+			useField(rst, a.Sel.Name)
+			if rptr {
+				t.line(ind, "%s := some { (← deref %s) with %s := %s }", mangle(root.Name), mangle(root.Name), mangle(a.Sel.Name), val)
+			} else {
+				t.line(ind, "%s := { %s with %s := %s }", mangle(root.Name), mangle(root.Name), mangle(a.Sel.Name), val)
+			}
+		default:
+			fail("the argument for a changed parameter of %s is not a variable", key)
 		}
 	}
-	return true
+	return tmps[:nres], true
 }
